@@ -18,9 +18,9 @@ TRUSTED = ["CasADi SX construction, AD, symbolic QR/inverse/solve and instructio
 ASSUMPTIONS = ["real arithmetic (no IEEE rounding)", "rk4: double constants within 2 ulp of p/q (q <= 5040) are read as p/q "
                "(CasADi stores division by 6 as multiplication by the rounded reciprocal)", "W lower triangular with non-zero diagonal; pivots of the factorizations "
                "non-zero (denominators on the path are assumed non-zero: 'well conditioned')", "Q, R symmetric (R = Rs Rs^T)"]
-BOUNDS = {"quick": {"sqrt_covariance_predict": "n in {1,2,3}", "sqrt_correct": "(n_x,n_y) in {(1,1),(2,1),(3,1)}; n_y >= 2 not decided (solver timeout on one entry)",
+BOUNDS = {"quick": {"sqrt_covariance_predict": "n in {1,2,3}", "sqrt_correct": "(n_x,n_y) in {(1,1),(2,1)}; (3,1) and n_y >= 2: one entry each not robustly decided within the time caps (not claimed)",
                     "ldl/udu": "n in {1..4}", "rk4": "scalar ODE, f polynomial of degree <= 3 in (t,y) with symbolic coefficients"},
-          "thorough": {"sqrt_covariance_predict": "n <= 4", "sqrt_correct": "+ (4,1)", "ldl/udu": "n <= 6"}}
+          "thorough": {"sqrt_covariance_predict": "n <= 4", "sqrt_correct": "same as quick", "ldl/udu": "n <= 6"}}
 EXPLANATION = "matrix identities per entry, decided by z3 on symbolic matrices of bounded dimension"
 
 
@@ -94,7 +94,7 @@ class Correct(Harness):
         self.nx, self.ny, self.rs_diag = nx, ny, rs_diag
         self.name = f"C10:sqrt_correct:nx{nx}:ny{ny}" + (":diagR" if rs_diag else "")
         self.shards = 1 if nx * ny <= 2 else 6
-        self.timeout_ms = 45000
+        self.timeout_ms = 150000
 
     def build(self):
         nx, ny = self.nx, self.ny
@@ -292,9 +292,9 @@ def all_harnesses(tier):
     # (n_x, n_y) = (2, 2): every entry except (W+ W+^T)[1,1] was proved during development; that one entry
     # (a degree > 30 identity in 10 variables) times out in z3 and in the exact normaliser, so the
     # configuration is not part of the claim (see BOUNDS)
-    dims = [(1, 1), (2, 1), (3, 1)]
+    dims = [(1, 1), (2, 1)]  # (3, 1) was proved in some runs but its last entry is not robustly within the time caps
     if tier == "thorough":
-        dims += [(4, 1)]
+        dims += []
     for nx, ny in dims:
         hs.append(Correct(nx, ny))
 
